@@ -6,7 +6,7 @@
    MaxBuilder through cfg hooks and compiles whole fonts, and evaluates, per case, a term that
    compares the model with what the code produced.  *)
 From Coq Require Import List NArith ZArith QArith Qround Qminmax Bool.
-From FV.C17 Require Import Model Proofs.
+From FV.C17 Require Import Model Proofs ProofsFloat.
 Import ListNotations.
 
 (** * hmtx / vmtx *)
@@ -224,13 +224,21 @@ Theorem xavg_exact_is_rounded_mean : forall count total, (0 < count)%Z -> (0 <= 
 Proof. exact Proofs.xavg_exact_is_rounded_mean. Qed.
 Print Assumptions xavg_exact_is_rounded_mean.
 
-(* ... and that is what the code computes: x_avg_char_width divides in a float type and rounds
-   with floor(x + 0.5).  For ANY rounding function of the float type that is monotone and leaves
-   the multiples of 2^-20 below 2^33 unchanged (binary64 round-to-nearest: 53 significant bits),
-   the result is the exactly rounded mean (saturated to i16), for up to 65536 glyphs with u16
-   advances.  Partial in one respect: that the executable model fp_round 53 (which the
-   correspondence run compares with the real xAvgCharWidth of every compiled font) has these two
-   properties is not proved here. *)
+(* ... and that is what the code computes: x_avg_char_width divides total by count in f64 and
+   rounds with floor(x + 0.5) (saturating to i16; NaN -> 0 when there is no non-zero advance).
+   With f64 modelled as rounding to 53 significant bits, ties to even, the result is the exactly
+   rounded mean, for up to 65536 glyphs with u16 advances. *)
+Theorem xavg_f64_is_rounded_mean : forall count total : Z,
+  (0 < count <= 65536)%Z -> (0 <= total <= count * 65535)%Z ->
+  xavg_f64 count total = sat_i16 (xavg_exact count total).
+Proof.
+  intros count total H1 H2. unfold xavg_f64.
+  exact (Proofs.xavg_fp_exact (fp_round 53) fp_round_mono fp_round_grid count total H1 H2).
+Qed.
+Print Assumptions xavg_f64_is_rounded_mean.
+
+(* The same for any float type whose rounding is monotone and leaves the multiples of 2^-20
+   below 2^33 unchanged. *)
 Theorem xavg_exact_for_precise_rounding : forall rnd : Q -> Q,
   (forall a b, (a <= b)%Q -> (rnd a <= rnd b)%Q) ->
   (forall j : Z, (0 <= j < 2 ^ 53)%Z -> (rnd (inject_Z j * (1 # 1048576)) == inject_Z j * (1 # 1048576))%Q) ->
